@@ -516,7 +516,27 @@ type decState struct {
 type SymFloat struct{ text Str }
 
 func (m *Machine) atomFor(line, hole, class string) *Term {
-	return TVar(line+"."+hole, SStr)
+	return TVar(holeKey(m.job, line, hole, class), SStr)
+}
+
+// holeKey names the symbolic variable of a template hole. A line may share the holes of
+// another line (Params["share.<line>"] = "<other>") except for the classes listed in
+// Params["vary.<line>"] - used by two-run (self-composition) harnesses.
+func holeKey(job *Job, line, hole, class string) string {
+	if job != nil {
+		if other := job.Params["share."+line]; other != "" {
+			vary := false
+			for _, c := range strings.Split(job.Params["vary."+line], ",") {
+				if c == class {
+					vary = true
+				}
+			}
+			if !vary {
+				return other + "." + hole
+			}
+		}
+	}
+	return line + "." + hole
 }
 
 func (m *Machine) piecesStr(line string, ps []Piece) Str {
@@ -634,7 +654,7 @@ func registerJSON(e *Engine) {
 			return Tuple{Iface{t: types.Typ[types.Float64], v: SymFloat{txt}}, Iface{}}
 		case TkBool:
 			if t.Hole != "" {
-				return Tuple{Iface{t: types.Typ[types.Bool], v: mkBool(TVar(st.line+"."+t.Hole, SBool))}, Iface{}}
+				return Tuple{Iface{t: types.Typ[types.Bool], v: mkBool(TVar(holeKey(m.job, st.line, t.Hole, "B"), SBool))}, Iface{}}
 			}
 			return Tuple{Iface{t: types.Typ[types.Bool], v: t.Bool}, Iface{}}
 		default:
